@@ -215,17 +215,22 @@ struct St {
     m: RefPacket,
 }
 
+// (return values of mutators are discarded: a mutator that starts to return something is still the same mutator)
 fn apply(s: &mut St, a: &Act) -> Result<(), mccore::Panicked> {
     let p = &mut s.p;
     let m = &mut s.m;
     match a.clone() {
         Act::Version(v) => {
             m.set_version(v);
-            guard(|| p.header.set_version(v))
+            guard(|| {
+                let _ = p.header.set_version(v);
+            })
         }
         Act::Type(t) => {
             m.set_type(t);
-            guard(|| p.header.set_type(u8_to_mtype(t)))
+            guard(|| {
+                let _ = p.header.set_type(u8_to_mtype(t));
+            })
         }
         Act::Code(c) => {
             m.set_code(c);
@@ -233,7 +238,9 @@ fn apply(s: &mut St, a: &Act) -> Result<(), mccore::Panicked> {
         }
         Act::CodeStr(s, c) => {
             m.set_code(c);
-            guard(|| p.header.set_code(s))
+            guard(|| {
+                let _ = p.header.set_code(s);
+            })
         }
         Act::Mid(x) => {
             m.set_mid(x);
@@ -242,28 +249,38 @@ fn apply(s: &mut St, a: &Act) -> Result<(), mccore::Panicked> {
         Act::Token(l) => {
             let t = pattern(l, 0x11);
             m.set_token(t.clone());
-            guard(|| p.set_token(t))
+            guard(|| {
+                let _ = p.set_token(t);
+            })
         }
         Act::Add(n, l) => {
             // the value depends on how many values are already there, so order matters
             let k = m.options.get(&n).map(|x| x.len()).unwrap_or(0) as u8;
             let v = pattern(l, k.wrapping_mul(17).wrapping_add(n as u8));
             m.add_option(n, v.clone());
-            guard(|| p.add_option(CoapOption::from(n), v))
+            guard(|| {
+                let _ = p.add_option(CoapOption::from(n), v);
+            })
         }
         Act::Clear(n) => {
             m.clear_option(n);
-            guard(|| p.clear_option(CoapOption::from(n)))
+            guard(|| {
+                let _ = p.clear_option(CoapOption::from(n));
+            })
         }
         Act::Set(n, k) => {
             let vs: Vec<Vec<u8>> = (0..k).map(|i| pattern(1 + 12 * i, 0x40 + i as u8)).collect();
             m.set_option(n, vs.clone());
             let l: LinkedList<Vec<u8>> = vs.into_iter().collect();
-            guard(|| p.set_option(CoapOption::from(n), l))
+            guard(|| {
+                let _ = p.set_option(CoapOption::from(n), l);
+            })
         }
         Act::ClearAll => {
             m.clear_all_options();
-            guard(|| p.clear_all_options())
+            guard(|| {
+                let _ = p.clear_all_options();
+            })
         }
         Act::Payload(k) => {
             let pl = payload_of(k);
